@@ -72,15 +72,17 @@ def classify(conf, conflicts):
     return 'concurrent-stripes-share-cell'
 
 
-def run_config(run, tsc, mon, rng, n1d, nthread, npartition, coord, sort, offset_cells, box, dtype, weights):
+def run_config(run, tsc, mon, rng, n1d, nthread, npartition, coord, sort, offset_cells, box, dtype, weights, long_x=False):
     shape = [n1d, n1d, n1d]
     # keep the grid small along the transverse axes (anisotropic grids are supported)
     for ax in range(3):
         if ax != coord:
             shape[ax] = min(n1d, 8)
+    if coord != 0 and long_x:
+        shape[0] = min(4 * n1d, 96)  # partition axis shorter than the leading axis
     shape = tuple(shape)
     np_guess = npartition
-    conf = dict(n1d=n1d, nthread=nthread, npartition=npartition, coord=coord, sort=sort, offset_cells=offset_cells, box=box, dtype=np.dtype(dtype).str, weights=weights)
+    conf = dict(n1d=n1d, nthread=nthread, npartition=npartition, coord=coord, sort=sort, offset_cells=offset_cells, box=box, dtype=np.dtype(dtype).str, weights=weights, grid_shape=list(shape))
     npart_for_particles = npartition if npartition else max(2, 2 * nthread)
     offset = offset_cells * box / n1d
     grid = np.zeros(shape, dtype=np.float64)
@@ -117,7 +119,7 @@ def run_config(run, tsc, mon, rng, n1d, nthread, npartition, coord, sort, offset
     run.count('cells_recorded', st['cells'])
     run.count('stripe_iterations_recorded', st['iterations'])
     if used >= 4:
-        run.nt((n1d, nthread, used, coord, sort, offset_cells, box, conf['dtype']))
+        run.nt((n1d, nthread, used, coord, sort, offset_cells, box, conf['dtype'], shape[0] > n1d))
     run.setmax('min_stripe_width_cells_x100_accepted_parallel', -int(100 * n1d / used))
     conflicts = mon.rec.conflicts()
     # the interpreted deposit must also equal the reference deposit (sanity of the monitor itself)
@@ -162,7 +164,7 @@ def acceptance_sweep(run, tsc):
                     box = [1.0, 123.0, 2000.0][(k // 2) % 3]
                     dtype = [np.float32, np.float64][(k // 5) % 2]
                     weights = bool(k % 2)
-                    res = run_config(run, tsc, mon, rng, n1d, nthread, npartition, coord, sort, offset_cells, box, dtype, weights)
+                    res = run_config(run, tsc, mon, rng, n1d, nthread, npartition, coord, sort, offset_cells, box, dtype, weights, long_x=bool((k // 7) % 2))
                     if k % 400 == 1:
                         run.sample(dict(n1d=n1d, nthread=nthread, npartition=npartition, coord=coord, sort=sort, offset_cells=offset_cells, box=box, dtype=np.dtype(dtype).str, result=res))
                     if run.too_many():
@@ -248,4 +250,4 @@ def replay(run, data):
         return stress(run, tsc)
     rng = run.rng(1)
     with mas.TscRaceMonitor(tsc) as mon:
-        run_config(run, tsc, mon, rng, c['n1d'], c['nthread'], c['npartition'], c['coord'], c['sort'], c['offset_cells'], c['box'], np.dtype(c['dtype']).type, c['weights'])
+        run_config(run, tsc, mon, rng, c['n1d'], c['nthread'], c['npartition'], c['coord'], c['sort'], c['offset_cells'], c['box'], np.dtype(c['dtype']).type, c['weights'], long_x=bool(c.get('grid_shape') and c['grid_shape'][0] > c['n1d']))
